@@ -355,6 +355,8 @@ pub struct World {
     next_serial: u64,
     w: Weights,
     nthreads: usize,
+    /// (op id, parent serial) of the explicit-parent event being judged
+    xparent_of_op: Option<(u64, u64)>,
 }
 
 impl World {
@@ -455,7 +457,28 @@ impl World {
                     }
                     LEv::Event { layer, opid, parent, cur, scope, scope_root } => {
                         if let Some((eo, est)) = event_op {
-                            if eo == *opid && est == st && !self.model.has_dup(st, t) {
+                            if eo == *opid && est == st && self.xparent_of_op.map(|x| x.0) == Some(eo) {
+                                // explicit parent: it overrides whatever is entered
+                                let ps = self.xparent_of_op.unwrap().1;
+                                if *parent != Some(ps) {
+                                    self.err(Tag::C06, format!("layer {layer}: event_span() of an event with the explicit parent serial {ps} is {parent:?}"));
+                                }
+                                let chain = self.model.chain(Some(ps));
+                                if *scope != chain {
+                                    self.err(Tag::C06, format!("layer {layer}: event_scope() of an event with the explicit parent serial {ps} is {scope:?}, the parent's ancestor chain leaf->root is {chain:?}"));
+                                }
+                                let mut r = chain;
+                                r.reverse();
+                                if *scope_root != r {
+                                    self.err(Tag::C06, format!("layer {layer}: event_scope().from_root() of an event with an explicit parent is {scope_root:?}, expected {r:?}"));
+                                }
+                                if !self.model.has_dup(st, t) {
+                                    let mc = self.model.current(st, t);
+                                    if *cur != mc {
+                                        self.err(Tag::C06, format!("layer {layer}: lookup_current() inside on_event (explicit parent) is {cur:?}, expected {mc:?}"));
+                                    }
+                                }
+                            } else if eo == *opid && est == st && !self.model.has_dup(st, t) {
                                 let mc = self.model.current(st, t);
                                 if *parent != mc {
                                     self.err(Tag::C06, format!("layer {layer}: event_span() of a contextual event is {parent:?}, expected the thread's current span {mc:?}"));
@@ -753,13 +776,47 @@ impl World {
                 self.handles[h] = Some(x);
             }
             8 => {
-                let Some(cs) = self.fresh.take(1 + self.rng.usize(5), self.rng.usize(4), Kind::Event) else { return };
+                // a third of the events name an explicit parent: a live span of the default stack
+                let xp: Option<(usize, u64)> = match dflt {
+                    Some(d) if self.rng.chance(1, 3) => {
+                        let cands: Vec<(usize, u64)> = live
+                            .iter()
+                            .filter_map(|&i| self.handles[i].as_ref().unwrap().serial.map(|s| (i, s)))
+                            .filter(|(_, s)| self.model.spans[s].stack == d)
+                            .collect();
+                        if cands.is_empty() { None } else { Some(*self.rng.pick(&cands)) }
+                    }
+                    _ => None,
+                };
+                let (level, tgt) = (1 + self.rng.usize(5), self.rng.usize(4));
+                let cs = match xp {
+                    Some(_) => self.fresh.take_xparent_event(level, tgt),
+                    None => None,
+                };
+                let xp = if cs.is_some() { xp } else { None };
+                let Some(cs) = cs.or_else(|| self.fresh.take(level, tgt, Kind::Event)) else { return };
                 let opid = self.new_serial();
-                self.trace.push(format!("[w{t}] event!(op {opid}), default {dflt:?}"));
-                let _ = (cs.emit)(opid);
-                self.sig("event", dflt.and_then(|d| self.model.current(d, t)), depth);
-                self.stat("events");
-                self.check(&[], None, dflt.map(|d| (opid, d)));
+                match xp {
+                    Some((h, ps)) => {
+                        self.trace.push(format!("[w{t}] event!(parent: h{h} [serial {ps}], op {opid}), default {dflt:?}"));
+                        vcs::set_xparent(self.handles[h].as_ref().unwrap().span.id());
+                        let _ = (cs.emit)(opid);
+                        vcs::set_xparent(None);
+                        self.sig("event_explicit_parent", Some(ps), depth);
+                        self.stat("events");
+                        self.stat("events_with_an_explicit_parent");
+                        self.xparent_of_op = Some((opid, ps));
+                        self.check(&[], None, dflt.map(|d| (opid, d)));
+                        self.xparent_of_op = None;
+                    }
+                    None => {
+                        self.trace.push(format!("[w{t}] event!(op {opid}), default {dflt:?}"));
+                        let _ = (cs.emit)(opid);
+                        self.sig("event", dflt.and_then(|d| self.model.current(d, t)), depth);
+                        self.stat("events");
+                        self.check(&[], None, dflt.map(|d| (opid, d)));
+                    }
+                }
             }
             9 => {
                 self.trace.push(format!("[w{t}] h{} = Span::current(), default {dflt:?}", self.handles.len()));
@@ -1072,6 +1129,7 @@ pub fn run_history(seed: u64, idx: u64, fresh: Arc<Fresh>, w: Weights, max_ops: 
         next_serial: 1,
         w,
         nthreads,
+        xparent_of_op: None,
     }));
     let workers = vlib::exec::Workers::new(nthreads);
     for t in 0..nthreads {
